@@ -16,6 +16,22 @@ const ATOMS: &[&str] = &[
     "(1, 2)[0]", "(f)(x)", "(a).b", "P { x: 1 }.x", "[1, 2]", "(1,)", "(x -> f())", "t[0][1]", "(E.A 1)",
 ];
 
+/// arrow calls written without parentheses: legal only as the last thing of an expression (the call after `->` takes
+/// the rest), so they are tried as the rightmost leaf only, after every unary / binary prefix
+const ARROW_ATOMS: &[&str] = &["1 -> f()", "x -> f(y)", "t[0] -> a.b(2)"];
+
+fn atom(k: usize) -> &'static str {
+    if k < ATOMS.len() { ATOMS[k] } else { ARROW_ATOMS[k - ATOMS.len()] }
+}
+
+fn count_leaves(t: &T) -> usize {
+    match t {
+        T::Leaf => 1,
+        T::Un(_, a) => count_leaves(a),
+        T::Bin(_, a, b) => count_leaves(a) + count_leaves(b),
+    }
+}
+
 #[derive(Clone, Debug)]
 enum T {
     Leaf,
@@ -58,16 +74,25 @@ fn trees(n: usize, memo: &mut Vec<Option<Vec<T>>>) -> Vec<T> {
 }
 
 fn to_expr(t: &T, leaf: &mut usize, rot: usize) -> Expr {
+    to_expr_n(t, leaf, rot, usize::MAX)
+}
+
+/// rotations beyond ATOMS.len() put an arrow atom at the last of `nleaves` leaves and atom i at leaf i
+fn to_expr_n(t: &T, leaf: &mut usize, rot: usize, nleaves: usize) -> Expr {
     match t {
         T::Leaf => {
-            let k = (*leaf + rot) % ATOMS.len();
+            let k = if rot >= ATOMS.len() {
+                if *leaf + 1 == nleaves { rot } else { *leaf % ATOMS.len() }
+            } else {
+                (*leaf + rot) % ATOMS.len()
+            };
             *leaf += 1;
             Expr::Raw(format!("\u{1}{}", k))
         }
-        T::Un(op, a) => un(*op, to_expr(a, leaf, rot)),
+        T::Un(op, a) => un(*op, to_expr_n(a, leaf, rot, nleaves)),
         T::Bin(op, a, b) => {
-            let x = to_expr(a, leaf, rot);
-            let y = to_expr(b, leaf, rot);
+            let x = to_expr_n(a, leaf, rot, nleaves);
+            let y = to_expr_n(b, leaf, rot, nleaves);
             bin(*op, x, y)
         }
     }
@@ -88,7 +113,7 @@ fn text(e: &Expr, min: u8, full: bool) -> String {
     let (t, prec) = match e {
         Expr::Raw(s) => {
             let k: usize = s[1..].parse().unwrap();
-            (ATOMS[k].to_string(), 9)
+            (atom(k).to_string(), 9)
         }
         Expr::Un(op, a) => {
             let inner = if full { format!("({})", text(a, 0, true)) } else { text(a, 8, false) };
@@ -150,12 +175,12 @@ thread_local! {
 fn atom_trees() -> Vec<PE> {
     ATOM_TREES.with(|c| {
         if c.borrow().is_empty() {
-            let src = ATOMS.iter().enumerate().map(|(i, a)| format!("v{} :: {}\n", i, a)).collect::<String>();
+            let src = ATOMS.iter().chain(ARROW_ATOMS.iter()).enumerate().map(|(i, a)| format!("v{} :: {}\n", i, a)).collect::<String>();
             let v = parse_defs(&src).unwrap_or_else(|e| {
                 eprintln!("MACHINERY: atoms do not parse: {}", e);
                 std::process::exit(2)
             });
-            assert_eq!(v.len(), ATOMS.len());
+            assert_eq!(v.len(), ATOMS.len() + ARROW_ATOMS.len());
             *c.borrow_mut() = v;
         }
         c.borrow().clone()
@@ -298,7 +323,7 @@ pub fn run(run: &mut Run) {
         shapes.extend(trees(n, &mut memo));
     }
     // thorough keeps depth-4 affordable: every rotation for <=3 operators, 3 rotations for 4 operators
-    let nrot = ATOMS.len();
+    let nrot = ATOMS.len() + ARROW_ATOMS.len();
     let small = {
         let mut c = 0usize;
         for n in 0..=3.min(max_ops) {
@@ -317,7 +342,7 @@ pub fn run(run: &mut Run) {
             (small + (j / 3) as usize, ((j % 3) * 5) as usize)
         };
         let mut leaf = 0;
-        let e = to_expr(&shapes[si], &mut leaf, rot);
+        let e = to_expr_n(&shapes[si], &mut leaf, rot, count_leaves(&shapes[si]));
         let (fail, minimal) = judge(&e);
         acc.evaluations += 1;
         acc.states += 1;
